@@ -152,6 +152,7 @@ type Run struct {
 	fo    *os.File
 	fi    *os.File
 	n     int
+	hung  bool
 }
 
 func NewRun(prop string, seed uint64, tier, out string, budget float64) *Run {
@@ -184,8 +185,18 @@ func (r *Run) Scale(n int) int {
 // Do executes one case on the implementation, records ops and outputs for the Model comparison,
 // and shrinks + records a replay when the oracle objects.
 func (r *Run) Do(component string, c Case, exec Exec) Result {
+	if r.hung {
+		// an earlier case hung: its goroutine is still spinning (Go cannot kill it), so every further
+		// case would only add to the pile. The hang is already recorded as a violation; stop exploring.
+		return Result{BadOp: -1}
+	}
 	r.n++
 	res := exec(c)
+	for _, o := range res.Outs {
+		if o == "hang" || strings.HasPrefix(o, "hang ") {
+			r.hung = true
+		}
+	}
 	fmt.Fprintf(r.ops, "# case %d %s\n", r.n, c.Header)
 	fmt.Fprintf(r.impl, "# case %d\n", r.n)
 	for i, op := range c.Ops {
@@ -223,7 +234,10 @@ func (r *Run) Do(component string, c Case, exec Exec) Result {
 		r.Stats.Samples = append(r.Stats.Samples, c.Header+" :: "+strings.Join(ops, "; "))
 	}
 	if res.BadOp >= 0 && len(r.Stats.Violations) < 20 {
-		small, sres := Shrink(c, exec)
+		small, sres := c, res
+		if !r.hung { // never re-run a hanging case: each run leaks a spinning goroutine
+			small, sres = Shrink(c, exec)
+		}
 		name := filepath.Join(r.Out, fmt.Sprintf("replay-%s-%s-%d.ops", r.Prop, component, r.n))
 		WriteReplay(name, r.Prop, component, r.Seed, small, sres)
 		r.Stats.Violations = append(r.Stats.Violations, Violation{Component: component, CaseNo: r.n,
